@@ -2,6 +2,7 @@ import SV.Wire
 import SV.Spec.JsonSchemaWire
 import SV.Model.C01
 import SV.Model.C01Regex
+import SV.Model.C01Body
 import SV.Spec.C01
 open SV SV.Wire SV.Model.C01
 
@@ -21,19 +22,6 @@ def lookupAnch (tbl : List (String × Bool)) (p : String) : Bool :=
   match tbl.find? (fun (p', _) => p' == p) with
   | some (_, b) => b
   | none => false
-
-/-- cfg JSON: {"vForbid","vLen","nn","resp","updQ","upd":[[p,lo|null,hi|null,out]],"anch":[[p,bool]]} -/
-def decCfg (j : Json) : Except String Cfg := do
-  let upd ← (← asArr (j.getD "upd" (.arr []))).mapM fun t => match t with
-    | .arr [.str p, lo, hi, .str out] => do pure (p, ← asOpt asNat lo, ← asOpt asNat hi, out)
-    | _ => .error "bad upd entry"
-  let anch ← (← asArr (j.getD "anch" (.arr []))).mapM fun t => match t with
-    | .arr [.str p, .bool b] => pure (p, b)
-    | _ => .error "bad anch entry"
-  return { vForbid := ← decVariant (optField j "vForbid"), vLen := ← decVariant (optField j "vLen"),
-           nn := ← asStr (j.getD "nn" (.str "nullable")),
-           resp := ← asBool (j.getD "resp" (.bool false)), updQ := ← asBool (j.getD "updQ" (.bool true)),
-           upd := lookupUpd upd, anch := lookupAnch anch }
 
 def decParam (j : Json) : Except String Param := do
   match ← field j "schema" with
@@ -58,6 +46,7 @@ partial def decRe (j : Json) : Except String (Re String) :=
 def decKind (j : Json) : Except String AtKind :=
   match j with
   | .str "bos" => pure .bos | .str "bosA" => pure .bosA | .str "eos" => pure .eos | .str "eosZ" => pure .eosZ
+  | .str "wordB" => pure .wordB | .str "nonWordB" => pure .nonWordB
   | .str "other" => pure .other
   | _ => .error "bad anchor kind"
 
@@ -79,7 +68,8 @@ def encRe : Re String → Json
   | .rep r lo hi => .arr [.str "rep", encRe r, jnat lo, jnat hi]
 
 def encKind : AtKind → Json
-  | .bos => .str "bos" | .bosA => .str "bosA" | .eos => .str "eos" | .eosZ => .str "eosZ" | .other => .str "other"
+  | .bos => .str "bos" | .bosA => .str "bosA" | .eos => .str "eos" | .eosZ => .str "eosZ"
+  | .wordB => .str "wordB" | .nonWordB => .str "nonWordB" | .other => .str "other"
 
 def encItem : Item String → Json
   | .at k => .arr [.str "at", encKind k]
@@ -98,6 +88,54 @@ def decV (j : Json) : Except String RxV :=
   pure { zeroMax := decV1 (j.getD "zeroMax" .null), atom := decV1 (j.getD "atom" .null) }
 
 end Rx
+
+/-- cfg JSON: {"vForbid","vLen","nn","resp","updQ","upd":[[p,lo|null,hi|null,out]],"anchItems":[[p,items]]}
+    `anch` (what `is_anchored` answers for the pattern text `p`) is the model's `isAnchored` on the parse tree of `p` -/
+def decCfg (j : Json) : Except String Cfg := do
+  let upd ← (← asArr (j.getD "upd" (.arr []))).mapM fun t => match t with
+    | .arr [.str p, lo, hi, .str out] => do pure (p, ← asOpt asNat lo, ← asOpt asNat hi, out)
+    | _ => .error "bad upd entry"
+  let anch ← (← asArr (j.getD "anchItems" (.arr []))).mapM fun t => match t with
+    | .arr [.str p, items] => do pure (p, SV.Model.C01Regex.isAnchored (← asList Rx.decItem items))
+    | _ => .error "bad anchItems entry"
+  return { vForbid := ← decVariant (optField j "vForbid"), vLen := ← decVariant (optField j "vLen"),
+           nn := ← asStr (j.getD "nn" (.str "nullable")),
+           resp := ← asBool (j.getD "resp" (.bool false)), updQ := ← asBool (j.getD "updQ" (.bool true)),
+           upd := lookupUpd upd, anch := lookupAnch anch }
+
+
+namespace Body
+open SV.Model.C01Body
+
+def decFactory (j : Json) : Except String Factory :=
+  match j with
+  | .str "positive" => pure .positive
+  | .str "negative" => pure .negative
+  | _ => .error "bad factory"
+
+def decKind (j : Json) : Except String AltKind :=
+  match j with
+  | .str "v3" => pure .v3 | .str "v2body" => pure .v2body | .str "v2form" => pure .v2form
+  | _ => .error "bad alternative kind"
+
+/-- {"kind","mediaType","required","schema":{…},"formParams":[{name,required,schema}],"supported":[…]} -/
+def decAlt (nn : String) (j : Json) : Except String Alt := do
+  let schema ← match j.getD "schema" (.obj []) with
+    | .obj kvs => pure kvs
+    | _ => .error "alternative schema must be an object"
+  let supported ← asList asStr (j.getD "supported" (.arr []))
+  let ps ← asList decParam (j.getD "formParams" (.arr []))
+  return { kind := ← decKind (← field j "kind"), mediaType := ← asStr (← field j "mediaType"),
+           required := ← asBool (j.getD "required" (.bool false)), schema := schema,
+           formParams := ps.map fun p => { p with schema := filterKeywords supported nn p.schema } }
+
+def encStrat : Strat → Json
+  | .custom mt => jobj [("custom", .str mt)]
+  | .built s mt f ns => jobj [("schema", s), ("mediaType", .str mt),
+                              ("factory", .str (match f with | .positive => "positive" | .negative => "negative")),
+                              ("orNotSet", .bool ns)]
+
+end Body
 
 def fuelOf (a : Json) : Nat := match a.getD "fuel" .null with | .num m 0 => m.toNat | _ => 64
 
@@ -126,6 +164,34 @@ def handle : Handler := fun op a => do
     match SV.Model.C01Regex.updateQuantifier (← Rx.decV (optField a "v")) items lo hi with
     | .ok out w => return jobj [("ok", .arr (out.map Rx.encItem)), ("rewrote", .bool w)]
     | .internalError => return .str "InternalError"
+  | "merge" =>
+    -- {v, vLen, sameText, items, lo, hi} → {"uq": update_quantifier on the tree, "merge": what update_pattern_in_schema leaves
+    -- ({ok: items, keep: bool} | "InternalError"), "anchored": is_anchored on the same tree}
+    let items ← asList Rx.decItem (← field a "items")
+    let lo ← asOpt asNat (optField a "lo")
+    let hi ← asOpt asNat (optField a "hi")
+    let v ← Rx.decV (optField a "v")
+    let uq := match SV.Model.C01Regex.updateQuantifier v items lo hi with
+      | .ok out w => jobj [("ok", .arr (out.map Rx.encItem)), ("rewrote", .bool w)]
+      | .internalError => .str "InternalError"
+    let mg := match SV.Model.C01Regex.mergeLengths v (Rx.decV1 (optField a "vLen"))
+        (← asBool (a.getD "sameText" (.bool false))) items lo hi with
+      | .ok m => jobj [("ok", .arr (m.items.map Rx.encItem)), ("keep", .bool m.keepLengths)]
+      | .internalError => .str "InternalError"
+    return jobj [("uq", uq), ("merge", mg), ("anchored", .bool (SV.Model.C01Regex.isAnchored items))]
+  | "body" =>
+    -- {cfg, fuel, custom:[media types], alts:[…], history:[[idx, factory]]} → the strategy every request is answered with
+    let cfg ← decCfg (a.getD "cfg" (.obj []))
+    let alts ← asList (Body.decAlt cfg.nn) (← field a "alts")
+    let custom ← asList asStr (a.getD "custom" (.arr []))
+    let hist ← (← asArr (← field a "history")).mapM fun t => match t with
+      | .arr [i, f] => do
+        let idx ← asNat i
+        match alts[idx]? with
+        | some alt => pure ({ idx := idx, alt := alt, factory := ← Body.decFactory f } : SV.Model.C01Body.BodyReq)
+        | none => .error "alternative index out of range"
+      | _ => .error "bad history entry"
+    return .arr ((SV.Model.C01Body.runBody cfg (fuelOf a) (fun mt => custom.contains mt) [] hist).map Body.encStrat)
   | "frag" =>
     -- {nn, schema, f, c} → is the schema in the fragment of C01_nullable_exact (with these fuels)?
     let nn ← asStr (a.getD "nn" (.str "nullable"))
